@@ -13,8 +13,9 @@ Fixpoint terms_eqb (a b : list term) : bool :=
   | _, _ => false
   end.
 
-(* per operation: the values written (as rebuilt terms) and whether the call succeeded *)
-Definition obs := (list term * bool)%type.
+(* per operation: the values written (as rebuilt terms), the non-opaque API results (ids, exported public keys, as
+   rebuilt terms) and whether the call succeeded *)
+Definition obs := (list term * list term * bool)%type.
 
 Record case := {
   c_cfg : lockcfg;
@@ -30,9 +31,9 @@ Record case := {
 Fixpoint check_from (st : kstate) (ops : list kop) (o : list obs) : bool :=
   match ops, o with
   | [], [] => true
-  | op :: r, (w, ok) :: t =>
-      let '(st', (mw, _, mok)) := step st op in
-      terms_eqb mw w && Bool.eqb mok ok && check_from st' r t
+  | op :: r, (w, o, ok) :: t =>
+      let '(st', (mw, mo, mok)) := step st op in
+      terms_eqb mw w && terms_eqb mo o && Bool.eqb mok ok && check_from st' r t
   | _, _ => false
   end.
 
